@@ -158,15 +158,4 @@ def set (mem : Nat → Bool) (t : JVal) (p : Bytes) (v : JVal) : Option (JVal ×
   | some toks => setTokens mem t toks v
   | none => none
 
-/-- the node at a position -/
-def nodeAt : JVal → List Nat → Option JVal
-  | t, [] => some t
-  | t, i :: is =>
-    match (match t with
-      | .arr xs => xs[i]?
-      | .obj kvs => kvs[i]?.map (·.2)
-      | _ => none) with
-    | some c => nodeAt c is
-    | none => none
-
 end JsonC.Rfc6901
